@@ -60,6 +60,7 @@ var histShapes = []hshape{
 	{Name: "literal-plus-glob", Tasks: []htask{{Name: "A", Lits: []string{"a.txt"}, Globs: []string{"sub/*.txt"}, NCmd: 1}, {Name: "B", Globs: []string{"*.txt"}, NCmd: 1}}, Files: []string{"a.txt", "sub/s.txt"}},
 	{Name: "same-glob-different-literals", Tasks: []htask{{Name: "A", Globs: []string{"*.txt"}, NCmd: 1}, {Name: "B", Lits: []string{"c.cfg"}, Globs: []string{"*.txt"}, NCmd: 1}}, Files: []string{"a.txt", "c.cfg"}},
 	{Name: "file-named-twice", Tasks: []htask{{Name: "A", Lits: []string{"a.txt"}, Globs: []string{"*.txt"}, NCmd: 1}, {Name: "B", Globs: []string{"*.txt", "**/*.txt"}, NCmd: 1}}, Files: []string{"a.txt", "b.txt"}},
+	{Name: "names-differing-in-case", Tasks: []htask{{Name: "A", Lits: []string{"a.txt"}, NCmd: 1}, {Name: "a", Lits: []string{"a.txt"}, NCmd: 1}}, Files: []string{"a.txt"}},
 	{Name: "generated-input", Tasks: []htask{{Name: "A", Lits: []string{"a.txt"}, NCmd: 1, Copies: [][2]string{{"a.txt", "g.txt"}}}, {Name: "B", Lits: []string{"g.txt"}, Deps: []string{"A"}, NCmd: 1}}, Files: []string{"a.txt", "g.txt"}},
 	{Name: "chain-of-three", Tasks: []htask{{Name: "A", Lits: []string{"a.txt"}, NCmd: 1}, {Name: "B", Lits: []string{"b.txt"}, Deps: []string{"A"}, NCmd: 1}, {Name: "C", Deps: []string{"B"}, NCmd: 1}}, Files: []string{"a.txt", "b.txt"}},
 }
@@ -213,6 +214,8 @@ func (o hop) String() string {
 		return "delete " + o.File
 	case "rmcache":
 		return "rm -rf .spok"
+	case "spokfile":
+		return "edit the spokfile to version " + o.Value
 	}
 	s := "spok"
 	if o.Force {
